@@ -92,6 +92,11 @@ class CHECK(Check):
             "arbitrary pre-existing buffers of every length. non-trivial = not all values missing; distinct = hash")
     exhaustive = True
 
+    @staticmethod
+    def case_hash(case):
+        import hashlib, json
+        return int(hashlib.sha1(json.dumps(case, sort_keys=True).encode()).hexdigest(), 16)
+
     def entry_of(self, case):
         return "FIELD" if case["t"] == "buf" else "LINE"
 
@@ -122,7 +127,7 @@ class CHECK(Check):
         warnings.simplefilter("ignore")
         from cfinterface.components.line import Line
         if case["t"] == "buf":
-            f = fl.mk_field(case["fd"], fl.py_value(case["v"]))
+            f = fl.mk_field(case["fd"], fl.py_value_typed(case["v"], self.case_hash(case)))
             return {"out": list(f.write(bytes(case["target"])))}
         line = Line([fl.mk_field(fd) for fd in case["fields"]], storage="BINARY")
         if case["t"] == "pat":
@@ -130,7 +135,8 @@ class CHECK(Check):
             w = line.write(r)
             return {"read": [fl.canon_value(x) for x in r], "w2": list(w)}
         try:
-            w = line.write([fl.py_value(v) for v in case["values"]])
+            h = self.case_hash(case)
+            w = line.write([fl.py_value_typed(v, (h >> (3 * i + 1)) if h & 1 else 0) for i, v in enumerate(case["values"])])
         except OverflowError:
             return {"raised": "OverflowError"}
         r = line.read(w)
